@@ -139,7 +139,18 @@ func handleGetUser(w http.ResponseWriter, r *http.Request, s Server) (int, error
 		return restapi.EncodeResponse(w, http.StatusNotFound, &userNotFoundJSON)
 	}
 
-	return restapi.EncodeResponse(w, http.StatusOK, response{userCred, s.StatsCollector.Snapshot().Traffic})
+	return restapi.EncodeResponse(w, http.StatusOK, response{userCred, userTraffic(s.StatsCollector.Snapshot(), username)})
+}
+
+// userTraffic returns the user's traffic statistics from the server's traffic statistics.
+// A user without any recorded session has zero traffic.
+func userTraffic(serverStats stats.Server, username string) stats.Traffic {
+	for i := range serverStats.Users {
+		if serverStats.Users[i].Name == username {
+			return serverStats.Users[i].Traffic
+		}
+	}
+	return stats.Traffic{}
 }
 
 func handleUpdateUser(w http.ResponseWriter, r *http.Request, s Server) (int, error) {
